@@ -2623,6 +2623,7 @@ bool QXmppJingleRtpFeedbackProperty::isJingleRtpFeedbackProperty(const QDomEleme
 /// Constructs a Jingle RTP feedback interval.
 ///
 QXmppJingleRtpFeedbackInterval::QXmppJingleRtpFeedbackInterval()
+    : m_value(0)
 {
 }
 
